@@ -9,9 +9,11 @@ import InToto.Proofs.Json
 import InToto.Model.Metadata
 import InToto.Generated.Facts
 import InToto.Model.SchemaFacts
+import InToto.Proofs.Injective
+import InToto.Proofs.FileRoundTrip
 
 namespace InToto.C11
-open InToto InToto.Json InToto.JsonProofs InToto.Metadata
+open InToto InToto.Json InToto.JsonProofs InToto.Metadata InToto.InjectiveProofs InToto.Schema InToto.SchemaProofs InToto.FileProofs
 
 /-- C11 (DSSE): the payload bytes are valid JSON — a strict RFC 8259 parser reads them back to
     exactly the (key-sorted) JSON value of the metadata that was set, whatever characters its
@@ -74,5 +76,40 @@ theorem facts_schema_is_model : SchemaFacts.namesOf Schema.fieldsLink = SchemaFa
 
 /-- the DSSE payload type constant of the source is the one the model uses -/
 theorem facts_payload_type : Generated.constPayloadType = Metadata.payloadTypeConst := by decide
+
+/-- C11 ("different content gives different bytes", typed level): the JSON encoding of well-typed
+    link values is injective up to the omitempty normal form (an empty collection in an
+    `omitempty` field is the same file as a nil one); with `canonical_injective` above: two
+    well-typed links with the same signed bytes are the same link up to that normal form and
+    member order -/
+theorem link_encoding_injective (v w : TVal) (hv : WT tyLink v) (hw : WT tyLink w)
+    (h : encode tyLink v = encode tyLink w) : normOmit tyLink v = normOmit tyLink w :=
+  encode_link_injective v w hv hw h
+
+theorem layout_encoding_injective (v w : TVal) (hv : WT tyLayout v) (hw : WT tyLayout w)
+    (h : encode tyLayout v = encode tyLayout w) : normOmit tyLayout v = normOmit tyLayout w :=
+  encode_layout_injective v w hv hw h
+
+/-- C11 ("different content gives different bytes", end to end for links): two well-typed links
+    with the same SIGNED BYTES are the same link — up to the omitempty normal form and the order
+    in which map entries are listed (`sortT`; Go maps are unordered) -/
+theorem same_signed_bytes_same_link (v w : TVal) (hv : WT tyLink v) (hw : WT tyLink w) (s : Str)
+    (h1 : canonPayload (.link v) = some s) (h2 : canonPayload (.link w) = some s) :
+    sortT (normOmit tyLink v) = sortT (normOmit tyLink w) := by
+  have hj : sortKeys (encode tyLink v) = sortKeys (encode tyLink w) := canonical_injective (.link v) (.link w) s h1 h2
+  have e1 := decode_sorted true tyLink v goodTy_link hv
+  have e2 := decode_sorted true tyLink w goodTy_link hw
+  rw [hj, e2] at e1
+  exact (Option.some.inj e1).symm
+
+/-- the same for layouts -/
+theorem same_signed_bytes_same_layout (v w : TVal) (hv : WT tyLayout v) (hw : WT tyLayout w) (s : Str)
+    (h1 : canonPayload (.layout v) = some s) (h2 : canonPayload (.layout w) = some s) :
+    sortT (normOmit tyLayout v) = sortT (normOmit tyLayout w) := by
+  have hj : sortKeys (encode tyLayout v) = sortKeys (encode tyLayout w) := canonical_injective (.layout v) (.layout w) s h1 h2
+  have e1 := decode_sorted true tyLayout v goodTy_layout hv
+  have e2 := decode_sorted true tyLayout w goodTy_layout hw
+  rw [hj, e2] at e1
+  exact (Option.some.inj e1).symm
 
 end InToto.C11
